@@ -426,7 +426,13 @@ func (i *Inst) runConnect(s *OiScript, tw *TraceWriter, rng *rand.Rand, store, u
 		}
 		domainOk := f["domain"] == wantDomain
 		ev["claimHostIsFileHost"] = fmt.Sprint(claims["remoteServer"]) == f["full address"]
-		ev["claimUserOk"] = fmt.Sprint(claims["sub"]) == wantUser && (cfg.NoUser || f["username"] == wantUser || cfg.Template != "") && (cfg.NoUser || domainOk)
+		// the login name written into the file may be rendered from a template; the token's subject is the session's
+		// user name itself
+		wantFileUser := wantUser
+		if cfg.Template != "" {
+			wantFileUser = strings.ReplaceAll(cfg.Template, "{{ username }}", wantUser)
+		}
+		ev["claimUserOk"] = fmt.Sprint(claims["sub"]) == wantUser && (cfg.NoUser || f["username"] == wantFileUser || strings.Contains(cfg.Template, "{{ token }}")) && (cfg.NoUser || domainOk)
 		ev["claimAddr"] = fmt.Sprint(claims["clientIp"])
 		ev["claimAtIsSession"] = fmt.Sprint(claims["accessToken"]) == sessionAT && sessionAT != ""
 		gwHost := strings.TrimPrefix(strings.TrimPrefix(i.BaseURL(), "http://"), "https://")
